@@ -538,12 +538,10 @@ def value_oracle(pops):
             panics[f] = panics.get(f, 0) + 1
         hash_fault_seen = hash_fault_seen or "hash" in op["faults"]
         for cls, msg in op["panics"]:
-            if cls != "injected" and hash_fault_seen and ORPHAN_PANIC in msg:
-                # known finding (see checks/notes/C22-intern.txt): a user Hash panic during the
-                # key-map growth of the cold path left a slot in the LRU without key-map entry;
-                # the first later interning that picks it for reuse panics once
-                panics["known:" + KNOWN_ORPHAN] += 1
-            elif cls != "injected":
+            # (the former known class intern-cold-rehash-orphan -- salsa's own "interned value in LRU
+            # so must be in key_map" after a user Hash panic during key-map growth -- was repaired
+            # by /repo commit 3d96502; a recurrence is an ordinary violation reported below)
+            if cls != "injected":
                 problems.append("op %d (%s): unwound with a panic that was not injected: %s"
                                 % (oi, op["text"], msg))
             elif not op["faults"]:
@@ -628,12 +626,11 @@ def check_case_full(ops, pinned=True, hashval=None, replay=True):
         res["known"].append(KNOWN_ORPHAN + ": a later interning panicked once with salsa's own `%s`"
                             % ORPHAN_PANIC)
     if stats.get("orphan_in_lru"):
-        # the model has no state "linked in the LRU, absent from the key map": the rest of the
-        # case cannot be followed; the implementation-side oracles above still apply
-        res["known"].append(KNOWN_ORPHAN + ": " + "; ".join(p for p in problems if "cold path unwound" in p)[:400])
-        del problems[:]
+        # fixed by /repo commit 3d96502 (key map first, LRU second): seeing it again is a violation
+        res["value_problems"].extend(p for p in problems if "cold path unwound" in p)
         return res
     if not replay:
+        del problems[:]         # without hook H5b the records of unwound calls are missing
         return res
     rc, rout, rerr = run_replay(lines)
     if rc != 0:
@@ -789,6 +786,13 @@ def run_intern_panic(seed, tier, n_cases=None, user_faults=True, workers=8):
            "requests_checked_after_a_panic": 0, "known_finding_cases": 0, "known": [],
            "value_failures": [], "model_mismatches": [], "samples": []}
     cases = []
+    # corpus first: minimal histories of repaired defects (they must pass now)
+    cdir = os.path.join(os.path.dirname(os.path.dirname(os.path.abspath(__file__))), "gen", "corpus", "C22")
+    if os.path.isdir(cdir):
+        for f in sorted(os.listdir(cdir)):
+            if f.startswith("intern-") and f.endswith(".case"):
+                ops = [l.split("#")[0].strip() for l in open(os.path.join(cdir, f))]
+                cases.append((0, [o for o in ops if o]))
     for ci in range(n_cases):
         sub = rng.getrandbits(32)
         cases.append((sub, gen_panic_case(random.Random(sub), smap, nshards, user_faults)))
